@@ -43,13 +43,14 @@ Section DenseCase.
     forallb (fun b => Nat.eqb (length (nth b (d_out c) [])) (length (nth b (d_succs c) [])))
             (seq 0 (length (d_succs c))).
 
-  (* model (FIFO and LIFO schedules) vs implementation, up to Equals *)
+  (* model (FIFO, LIFO and the reverse-postorder priority schedules) vs implementation, up to Equals *)
   Definition dense_mismatch (c : dcase) : bool :=
     d_diverged c || negb (shape_ok c) ||
-    match model_result (fun w => hd 0 w) c, model_result (fun w => last w 0) c with
-    | Some m1, Some m2 =>
-        negb (tables_eqv (d_succs c) m1 (d_in c, d_out c)) || negb (tables_eqv (d_succs c) m2 (d_in c, d_out c))
-    | _, _ => true
+    match model_result (fun w => hd 0 w) c, model_result (fun w => last w 0) c, model_result (pick_heap (d_succs c)) c with
+    | Some m1, Some m2, Some m3 =>
+        negb (tables_eqv (d_succs c) m1 (d_in c, d_out c)) || negb (tables_eqv (d_succs c) m2 (d_in c, d_out c)) ||
+        negb (tables_eqv (d_succs c) m3 (d_in c, d_out c))
+    | _, _, _ => true
     end.
 
   (* the property on the implementation's own output: a solution of the equations, and equal to the
